@@ -735,10 +735,49 @@ func runORD18b(p *Prog, r *RuleRun) {
 			r.Unknown("anchor:"+l.cause, "?", "implementation not found for the layer above "+l.cause)
 			continue
 		}
-		isCause := func(v ssa.Value) bool {
+		var isCause func(v ssa.Value) bool
+		// viaHelper: a same-package helper that calls the cause and hands its error on with its identity intact
+		viaHelper := map[*ssa.Function]bool{}
+		var helperPreserves func(callee *ssa.Function, depth int) bool
+		helperPreserves = func(callee *ssa.Function, depth int) bool {
+			if ok, seen := viaHelper[callee]; seen {
+				return ok
+			}
+			viaHelper[callee] = false
+			if depth > 2 || callee == nil || callee.Blocks == nil || callee.Pkg != l.fn.Pkg || resultErrIndex(callee.Signature) < 0 {
+				return false
+			}
+			calls := false
+			for _, b := range callee.Blocks {
+				for _, ins := range b.Instrs {
+					if ci, ok := ins.(ssa.CallInstruction); ok && eventName(ci) == l.cause {
+						calls = true
+					}
+				}
+			}
+			if !calls {
+				return false
+			}
+			for _, v := range returnedErrors(callee) {
+				if c, ok := v.(*ssa.Const); ok && c.IsNil() {
+					continue
+				}
+				if ok, _ := errorPreserved(v, isCause, 0); !ok {
+					return false
+				}
+			}
+			viaHelper[callee] = true
+			return true
+		}
+		isCause = func(v ssa.Value) bool {
 			if ex, ok := v.(*ssa.Extract); ok {
-				if c, ok := ex.Tuple.(*ssa.Call); ok && eventName(c) == l.cause && ex.Index == resultErrIndex(c.Call.Signature()) {
-					return true
+				if c, ok := ex.Tuple.(*ssa.Call); ok && ex.Index == resultErrIndex(c.Call.Signature()) {
+					if eventName(c) == l.cause {
+						return true
+					}
+					if callee := c.Call.StaticCallee(); callee != nil && callee != l.fn && helperPreserves(callee, 0) {
+						return true
+					}
 				}
 			}
 			return false
